@@ -143,6 +143,35 @@ func triggersOf(q *Term) []trigger {
 	return out
 }
 
+func mentionsAny(t *Term, set map[*Term]bool) bool {
+	if len(set) == 0 {
+		return false
+	}
+	memo := map[*Term]bool{}
+	var rec func(t *Term) bool
+	rec = func(t *Term) bool {
+		if set[t] {
+			return true
+		}
+		if len(t.Args) == 0 {
+			return false
+		}
+		if r, ok := memo[t]; ok {
+			return r
+		}
+		r := false
+		for _, a := range t.Args {
+			if rec(a) {
+				r = true
+				break
+			}
+		}
+		memo[t] = r
+		return r
+	}
+	return rec(t)
+}
+
 func mentions(t, v *Term) bool {
 	return mentionsMemo(t, v, map[*Term]bool{})
 }
@@ -226,7 +255,7 @@ func Instantiate(assume []*Term, goal *Term, cover bool) (qf []*Term, g *Term, n
 				return
 			}
 			visited[t] = true
-			if t.Op == "var" && len(t.Name) > 3 && t.Name[:3] == "sk_" && !seenSk[t] {
+			if t.Op == "var" && ((len(t.Name) > 3 && t.Name[:3] == "sk_") || (len(t.Name) > 2 && t.Name[:2] == "f!")) && !seenSk[t] {
 				seenSk[t] = true
 				skolems = append(skolems, t)
 			}
@@ -235,6 +264,10 @@ func Instantiate(assume []*Term, goal *Term, cover bool) (qf []*Term, g *Term, n
 			}
 		}
 		findSk(g)
+	}
+	skolemSet := map[*Term]bool{}
+	for _, sk := range skolems {
+		skolemSet[sk] = true
 	}
 	addInst := func(q *qfact, done map[*Term]bool, inst *Term, out *[]*Term) {
 		if done[inst] {
@@ -264,10 +297,15 @@ func Instantiate(assume []*Term, goal *Term, cover bool) (qf []*Term, g *Term, n
 				if sk.Sort != b.Sort || sk.Sort.Kind != SBV {
 					continue
 				}
-				w := sk.Sort.Width
+				if os.Getenv("VC_NOSKIP") == "" && (b.Name == "r?alloc" || len(q.trig) == 0) {
+					continue // allocation-map growth and trigger-less facts are not about indexes
+				}
 				addInst(&q.f, q.done, sk, &extra)
-				addInst(&q.f, q.done, BVBin("bvadd", sk, BVU(1, w)), &extra)
-				addInst(&q.f, q.done, BVBin("bvsub", sk, BVU(1, w)), &extra)
+				if os.Getenv("VC_SKPM") != "" {
+					w := sk.Sort.Width
+					addInst(&q.f, q.done, BVBin("bvadd", sk, BVU(1, w)), &extra)
+					addInst(&q.f, q.done, BVBin("bvsub", sk, BVU(1, w)), &extra)
+				}
 			}
 		}
 		for _, t := range extra {
@@ -294,7 +332,12 @@ func Instantiate(assume []*Term, goal *Term, cover bool) (qf []*Term, g *Term, n
 								fmt.Fprintf(os.Stderr, "diff x=%.200s\n     base=%.200s\n     => %v\n", x, tr.base, d)
 							}
 							if d == nil {
-								continue
+								// a residue with a negative part is only worth an instance when the read
+								// is about the goal's own index (a skolem constant)
+								if !mentionsAny(x, skolemSet) {
+									continue
+								}
+								d = nz.rewrite(BVBin("bvsub", x, tr.base))
 							}
 							inst = d
 						} else {
